@@ -36,6 +36,14 @@ func genTyped(t *rapid.T) TypedCase {
 	c.Plan.Uniq = rapid.IntRange(0, 2).Draw(t, "uniq") == 0
 	c.Opts = gen.WriterOptions(t, cols, gen.OptsBias{SmallPages: rapid.Bool().Draw(t, "small"), EncFor: pq.ValidEncodings})
 	c.Ops = gen.WriteOps(t, c.Plan.NumRows())
+	// some histories hand part of the rows, deconstructed, to WriteRows of the same typed writer
+	if c.Type != "ListPtr" && rapid.IntRange(0, 3).Draw(t, "mix") == 0 {
+		for i := range c.Ops {
+			if c.Ops[i].Kind == "w" && rapid.IntRange(0, 2).Draw(t, "wr") == 0 {
+				c.Ops[i].Kind = "wr"
+			}
+		}
+	}
 	c.ReadBatch = []int{1, 2, 7, 17, 64, 100, 1000}[rapid.IntRange(0, 6).Draw(t, "rb")]
 	return c
 }
@@ -73,9 +81,11 @@ func runTyped(c TypedCase, o *kit.Obs) *kit.Failure {
 		name string
 		f    func() (any, error)
 	}{
-		{"GenericReader.Read", func() (any, error) { return e.ReadAll(data, c.ReadBatch) }},
+		{"GenericReader.Read", func() (any, error) { return e.ReadAll(data, c.ReadBatch, false) }},
+		{"GenericReader.Read(reused batch)", func() (any, error) { return e.ReadAll(data, c.ReadBatch, true) }},
 		{"parquet.Read", func() (any, error) { return e.ReadFunc(data) }},
-		{"Reader.Read", func() (any, error) { return e.ReaderRead(data) }},
+		{"Reader.Read", func() (any, error) { return e.ReaderRead(data, false) }},
+		{"Reader.Read(reused value)", func() (any, error) { return e.ReaderRead(data, true) }},
 	}
 	for _, r := range readers {
 		got, err := r.f()
@@ -105,6 +115,12 @@ func runTyped(c TypedCase, o *kit.Obs) *kit.Failure {
 		}
 	}
 	o.Class("type-" + c.Type)
+	for _, op := range c.Ops {
+		if op.Kind == "wr" {
+			o.Class("mixed-Write/WriteRows")
+			break
+		}
+	}
 	o.ClassIf(pages >= 2, "multi-page")
 	o.ClassIf(len(f.RowGroups()) >= 2, "multi-rowgroup")
 	if len(want) > 0 && (pages >= 2 || len(f.RowGroups()) >= 2) {
